@@ -39,7 +39,7 @@ func (c03) Meta() fw.Meta {
 
 func (c03) Cases(tier string) int {
 	if tier == "thorough" {
-		return 40000
+		return 300000
 	}
 	return 1500
 }
